@@ -731,6 +731,71 @@ theorem global_valid (D : Dims) (hD : DPos D) : (Box.global D).Valid D := by
 
 end Prim
 
+/-! ## `distribute_toplayer` -/
+
+section TopL
+variable {α : Type} [Scalar α]
+
+theorem compress_mapFrom {β : Type} (f : Nat → β → β) (A : List Bool) (s : Nat) (x : List β)
+    (hx : x.length = A.length) :
+    compress A (mapFrom f s x) = walkActive f A s (compress A x) := by
+  induction A generalizing s x with
+  | nil =>
+    cases x with
+    | nil => rfl
+    | cons y ys => simp at hx
+  | cons a as ih =>
+    cases x with
+    | nil => simp at hx
+    | cons y ys =>
+      simp at hx
+      cases a
+      · simp [mapFrom, compress, walkActive, ih (s + 1) ys hx]
+      · simp [mapFrom, compress, walkActive, ih (s + 1) ys hx]
+
+theorem mapFrom_length {β γ : Type} (f : Nat → β → γ) (s : Nat) (x : List β) : (mapFrom f s x).length = x.length := by
+  induction x generalizing s with
+  | nil => rfl
+  | cons y ys ih => simp [mapFrom, ih]
+
+theorem topValue_eq (D : Dims) (A : List Bool) (b : Box) (hv : b.Valid D) (deck : Arr α) (li : Nat) :
+    topValueImpl (indexList D A b) deck li = topValueRef D A b deck li := by
+  have hs := indexList_spec D A b hv
+  unfold topValueImpl topValueRef
+  cases hf : (indexList D A b).find? (fun e => e.g == li) with
+  | some e =>
+    have hm := List.mem_of_find?_eq_some hf
+    have hg : e.g = li := by
+      have := List.find?_some hf
+      simpa using this
+    obtain ⟨hact, hsel, _⟩ := (hs.mem e).mp hm
+    rw [hg] at hact hsel
+    simp [hact, hsel]
+  | none =>
+    simp only
+    by_cases hact : isActive A li = true
+    · simp only [hact, if_true]
+      cases hsel : boxSel D b li with
+      | none => rfl
+      | some d =>
+        exfalso
+        have hm : (⟨li, rank A li, d⟩ : Idx) ∈ indexList D A b := (hs.mem _).mpr ⟨hact, hsel, rfl⟩
+        have := List.find?_eq_none.mp hf _ hm
+        simp at this
+    · simp [hact]
+
+theorem topApply_refines (D : Dims) (A : List Bool) (b : Box) (hv : b.Valid D) (deck x : Arr α)
+    (hx : x.length = A.length) :
+    compress A (topApply .ref D A b deck x) = topApply .impl D A b deck (compress A x) := by
+  simp only [topApply]
+  rw [compress_mapFrom _ A 0 x hx]
+  congr 1
+  funext g c
+  rw [topValue_eq D A b hv]
+
+
+end TopL
+
 section Handlers
 variable {α : Type} [RealOps α]
 
@@ -752,6 +817,36 @@ theorem tail_boxD (D : Dims) (s : St α) (hw : WF D s) (name : String) (K : Kern
     refine ⟨trivial, fun q hq => ?_⟩
     cases hq
     exact ⟨putD_wf D _ _ _ hw (by rw [hy, ht]), hb2⟩
+
+theorem topStep_refines (D : Dims) (A : List Bool) (hA : A.length = D.size) (sec : Section) (info : DInfo α)
+    (b : Box) (hv : b.Valid D) (deck y : Arr α) (hy : y.length = D.size) :
+    compress A (topStep .ref D A sec info b deck y) = topStep .impl D A sec info b deck (compress A y) ∧
+    (topStep .ref D A sec info b deck y).length = D.size := by
+  unfold topStep
+  rw [validArr_impl A y (by rw [hy, hA])]
+  split
+  · exact ⟨topApply_refines D A b hv deck y (by rw [hy, hA]), by simp [topApply, mapFrom_length, hy]⟩
+  · exact ⟨rfl, hy⟩
+
+theorem tail_boxD_post (D : Dims) (s : St α) (hw : WF D s) (name : String) (K : Kernel α) (b b2 : Box)
+    (hb : b.Valid D) (hb2 : b2.Valid D) (src tgt : Arr α) (hs : src.length = D.size) (ht : tgt.length = D.size)
+    (fr fi : Arr α → Arr α)
+    (hpost : ∀ y, y.length = D.size → compress s.act (fr y) = fi (compress s.act y) ∧ (fr y).length = D.size) :
+    ((boxApply .ref D s.act K b src tgt).map fun y => (putD s name (fr y), b2)).map cPair =
+      ((boxApply .impl D s.act K b (compress s.act src) (compress s.act tgt)).map
+        fun y => (putD (cSt s) name (fi y), b2)) ∧
+    ∀ q, ((boxApply .ref D s.act K b src tgt).map fun y => (putD s name (fr y), b2)) = some q →
+      WF D q.1 ∧ q.2.Valid D := by
+  rw [boxApply_impl D _ K b hb src tgt (by rw [hs, hw.act]) (by rw [ht, hw.act])]
+  cases hap : boxApply .ref D s.act K b src tgt with
+  | none => simp
+  | some y =>
+    have hy := boxApply_ref_length _ _ _ _ _ _ _ hap
+    obtain ⟨hp1, hp2⟩ := hpost y (by rw [hy, ht])
+    simp only [Option.map_some, cPair, cSt_putD, hp1]
+    refine ⟨trivial, fun q hq => ?_⟩
+    cases hq
+    exact ⟨putD_wf D _ _ _ hw hp2, hb2⟩
 
 theorem tail_boxI (D : Dims) (s : St α) (hw : WF D s) (name : String) (K : Kernel Int) (b b2 : Box)
     (hb : b.Valid D) (hb2 : b2.Valid D) (src tgt : Arr Int) (hs : src.length = D.size) (ht : tgt.length = D.size) :
@@ -1192,7 +1287,8 @@ theorem kwStep_refines (D : Dims) (hD : DPos D) (T : Tables α) (sec : Section) 
       by_cases hlen : vals.length ≠ b.size
       · rw [if_pos hlen, if_pos hlen]; simp
       · rw [if_neg hlen, if_neg hlen, ← ha1]
-        exact tail_boxD D p.1 hw1 _ _ b b hb hb p.2 p.2 hl1 hl1
+        exact tail_boxD_post D p.1 hw1 _ _ b b hb hb p.2 p.2 hl1 hl1 _ _
+          (fun y hy => topStep_refines D p.1.act hw1.act sec info b hb _ y hy)
   | dataI kw vals =>
     simp only [kwStep]
     cases hd : sget T.int kw with
